@@ -53,6 +53,9 @@ def run(ctx):
                  "U5": "per metric: finalise(sum partial) == sqrt(S/total) (rmsle, rmspe), S/total (rpd, smape), 1 - rss/tss resp. 1 - rss when tss == 0 (r2); partial == un-normalised summand of the metric",
                  "U6": "global RMSE == sqrt(sum segment SSE / len(points)); MIP == median_i(rmse(reduced without i) - rmse(reduced)), MAD second"}.items():
         res.rule(k, v)
+    res.rule("U7", "no cache-like parameter of evaluation / rdp has a mutable default that the function (or a callee it is passed to) writes: "
+                   "one cache object is never shared between calls that did not ask for it")
+    _mutable_defaults(rc)
     _global_cost_loop(rc)
     _compute_cost(rc)
     _partial(rc)
@@ -292,6 +295,85 @@ def _global_cost_loop(rc: RuleCtx):
                           construct="callee purity")
         else:
             res.ok("U1", f"{q}:pure", "no write to any parameter (E3 summary)")
+
+
+_MUTATORS = {"update", "setdefault", "pop", "popitem", "clear", "append", "extend", "insert", "remove", "sort", "reverse", "add", "discard", "fill"}
+
+
+def _mutable_defaults(rc: RuleCtx, rule: str = "U7", modules=("evaluation", "rdp"), need_one: bool = True):
+    """U7 (also C20 P-default).  A default value is evaluated once, when the function is defined.  If it is a dict / list / set and the
+    function stores into that parameter (directly, or by passing it to a callee that stores into the corresponding
+    parameter) every call that omits the argument shares one object: results cached for one curve or metric are
+    served to the next."""
+    res = rc.res
+    lk = rc.lk
+    funcs = {}
+    mods = [rc.repo.mod(m_) for m_ in modules] if modules else [m_ for m_ in rc.repo.modules.values() if m_.role == "package"]
+    for mod_ in mods:
+        for fi in mod_.all_functions:
+            funcs[fi.qualname] = fi
+
+    def params(fi):
+        return fi.signature.positional + fi.signature.kwonly
+
+    # direct writes through the parameter's own name
+    writes = {q: set() for q in funcs}
+    for q, fi in funcs.items():
+        ps = set(params(fi))
+        for n in ast.walk(fi.node):
+            if isinstance(n, (ast.Assign, ast.AugAssign, ast.AnnAssign, ast.Delete)):
+                tgts = n.targets if isinstance(n, (ast.Assign, ast.Delete)) else [n.target]
+                for t_ in tgts:
+                    if isinstance(t_, ast.Subscript) and isinstance(t_.value, ast.Name) and t_.value.id in ps:
+                        writes[q].add(t_.value.id)
+            elif isinstance(n, ast.Call) and isinstance(n.func, ast.Attribute) and n.func.attr in _MUTATORS and isinstance(n.func.value, ast.Name) \
+                    and n.func.value.id in ps:
+                writes[q].add(n.func.value.id)
+    # transitive: passed on, under its own name, to a package callee that writes the corresponding parameter
+    changed = True
+    while changed:
+        changed = False
+        for q, fi in funcs.items():
+            ps = set(params(fi))
+            for n in ast.walk(fi.node):
+                if not isinstance(n, ast.Call):
+                    continue
+                r = lk.resolve(fi.module, n.func)
+                if r.kind != "func" or r.obj.qualname not in funcs:
+                    continue
+                callee = r.obj
+                cps = params(callee)
+                amap = {}
+                for k_, a in enumerate(n.args):
+                    if k_ < len(callee.signature.positional):
+                        amap[callee.signature.positional[k_]] = a
+                for kw in n.keywords:
+                    if kw.arg:
+                        amap[kw.arg] = kw.value
+                for cp, a in amap.items():
+                    if cp in writes[callee.qualname] and isinstance(a, ast.Name) and a.id in ps and a.id not in writes[q]:
+                        writes[q].add(a.id)
+                        changed = True
+    checked = 0
+    for q, fi in sorted(funcs.items()):
+        for p_ in params(fi):
+            d = fi.param_default(p_)
+            if d is None:
+                continue
+            mutable = isinstance(d, (ast.Dict, ast.List, ast.Set, ast.DictComp, ast.ListComp, ast.SetComp)) or (
+                isinstance(d, ast.Call) and isinstance(d.func, ast.Name) and d.func.id in ("dict", "list", "set", "defaultdict", "OrderedDict"))
+            if p_ in writes[q]:
+                checked += 1
+                if mutable:
+                    res.violation(rule, fi.module, fi.name, d,
+                                  f"parameter '{p_}' of {q} defaults to a mutable {type(d).__name__.lower()} created once at definition time and the function stores into it: "
+                                  "calls that omit the argument share one cache, so values cached for one curve / metric are returned for another",
+                                  f"{p_}={ast.unparse(d)}", f"{p_}=None with `if {p_} is None: {p_} = {{}}` inside the function", construct=f"mutable default {p_}")
+                else:
+                    res.ok(rule, f"{q}({p_})", f"written parameter with immutable default {ast.unparse(d)}")
+    res.analysed["written_parameters_with_defaults"] = checked
+    if not checked and need_one:
+        raise AnalysisError("U7: no written parameter with a default value found (expected at least evaluation.compute_global_cost(cache=None))")
 
 
 def _is_degenerate_case(g, x0, xn):
